@@ -49,7 +49,12 @@ def main():
     chk.stubs += ["nbdime.args.get_defaults_for_argparse -> {} while the nbdiff parser runs (no configuration files; C19 covers them)",
                   "isinstance inside nbdime modules -> sx.values.sym_isinstance"]
     chk.require_goals(["nonempty-diff-with-ignores", "empty-diff-with-differences",
-                       "key-list-ignore-with-in-place-change"])
+                       "key-list-ignore-with-in-place-change", "empty-base-source-gets-text",
+                       "code-cells-exchange-ids-and-differ-in-ignored-outputs", "several-notebooks-in-one-nbdiff-run"])
+    chk.bounds["special shapes"] = ("shape 1: the code cell's source is empty in A (sources / outputs / cell metadata / execution count differences); "
+                                    "shape 2: two code cells that exchange their ids and both differ in outputs / output metadata / execution counts; "
+                                    "64 subsets x 2 (4) delivery modes.  One nbdiff run over 2-3 changed notebooks (changed_notebooks stubbed): "
+                                    "64 subsets x positive / negative flags, concrete leaves")
     chk.bounds["key-list ignores"] = ("'Ignore' mappings with key lists: 32 subsets of 5 (path, key) pairs at notebook, cell and "
                                       "output metadata level x 32 difference subsets (scalar replacement / in-place change of an "
                                       "object or list value)")
